@@ -45,11 +45,18 @@ func VH_blank(n int) {
 	// a boundary: the end of the k-th chunk (k chosen by forking), or the very beginning
 	pos := 0
 	k := verifChoice(n + 1)
+	inLineComment := false
 	for j := 0; j < k; j++ {
 		if pos >= n {
 			verifAssume(false)
 		}
 		end, _, _, diag, _, _ := specLex(src, pos)
+		inLineComment = false
+		if src[pos] == 47 {
+			if pos+1 < n {
+				inLineComment = src[pos+1] == 47
+			}
+		}
 		if diag {
 			// an unterminated string or comment is not a token: text inserted after it is
 			// swallowed or terminates it, which is outside "between tokens"
@@ -76,6 +83,9 @@ func VH_blank(n int) {
 		ins, nl = []rune{47, 42, 10, 42, 47}, 1
 	}
 	if ins[0] == 47 {
+		// the end of a line comment is still inside that comment (it runs to the newline):
+		// comment text inserted there is comment content, not layout between tokens
+		verifAssume(!inLineComment)
 		if pos > 0 {
 			// a comment opener glued to a preceding '/' would itself become part of another
 			// comment opener: the insertion must stay between tokens
